@@ -4,6 +4,8 @@ import Ldlm.Driver.Rest
 import Ldlm.Driver.Client
 import Ldlm.Driver.Lin
 import Ldlm.Driver.LinThreads
+import Ldlm.Driver.LinRest
+import Ldlm.Driver.LinClient
 
 def main (args : List String) : IO UInt32 := do
   match args with
@@ -14,4 +16,6 @@ def main (args : List String) : IO UInt32 := do
   | ["linlease"] => Ldlm.Driver.linLeaseMain; return 0
   | ["linsess"] => Ldlm.Driver.linSessMain; return 0
   | ["linthreads"] => Ldlm.Driver.ThreadsLin.linThreadsMain; return 0
+  | ["linrest"] => Ldlm.Driver.RestLin.linRestMain; return 0
+  | ["linclient"] => Ldlm.Driver.ClientLin.linClientMain; return 0
   | _ => IO.eprintln "usage: driver (codec|seq|conc) ..."; return 2
